@@ -219,28 +219,31 @@ def saveObjsDks (s : BState) (objs : List Obj) : List (Obj × List Key) :=
 def ensureAll (w : World) (s : BState) (objs : List Obj) (collect : Bool) : Res :=
   objs.foldl (fun (r : Res) o => r.andThen fun s => ensureCached w s o collect) (Res.ok s)
 
+/-- the part of `save` that looks the stream's descriptor up, making it when the stream is new and
+    rejecting a bundle whose objects differ from the stream's -/
+def saveDescriptor (w : World) (s : BState) (n : Name) (objsRead : List Obj) : Res :=
+  match aget s.descriptors n with
+  | none =>
+    (ensureAll w s objsRead false).andThen fun s => prepareStream w s n (saveObjsDks s objsRead)
+  | some d =>
+    if !sameSet (akeys d.objs) objsRead then Res.fail s .runtimeError else Res.ok s
+
+/-- the part of `save` that composes and emits the event -/
+def saveEvent (s : BState) (n : Name) (readings : List (Key × Val)) : Res :=
+  match aget s.descriptors n with
+  | none => Res.fail s .keyError
+  | some d => composeEvent s n d.uid d.keys d.ext readings .bundle
+
 def save (w : World) (s : BState) : Res :=
   if !s.bundling then Res.fail s .illegalMessageSequence else
   if saveEmptyReturnsEarly && s.objsRead.isEmpty then
     Res.ok (if saveEmptyClearsBundle then { s with bundling := false, bundleName := none } else s)
   else
-  let objsRead := s.objsRead
-  let readings := mergeReadings s.readCache
-  let descKey := s.bundleName
-  let s := { s with bundling := false, bundleName := none }
-  match descKey with
-  | none => Res.fail s .schemaError   -- compose_descriptor(name=None) fails schema validation
+  match s.bundleName with
+  | none => Res.fail { s with bundling := false, bundleName := none } .schemaError   -- compose_descriptor(name=None) fails schema validation
   | some n =>
-    let r : Res :=
-      match aget s.descriptors n with
-      | none =>
-        (ensureAll w s objsRead false).andThen fun s => prepareStream w s n (saveObjsDks s objsRead)
-      | some d =>
-        if !sameSet (akeys d.objs) objsRead then Res.fail s .runtimeError else Res.ok s
-    r.andThen fun s =>
-      match aget s.descriptors n with
-      | none => Res.fail s .keyError
-      | some d => composeEvent s n d.uid d.keys d.ext readings .bundle
+    (saveDescriptor w { s with bundling := false, bundleName := none } n s.objsRead).andThen fun s' =>
+      saveEvent s' n (mergeReadings s.readCache)
 
 def drop (s : BState) : Res :=
   if !s.bundling then Res.fail s .illegalMessageSequence
